@@ -48,5 +48,18 @@ Example C15_nonvacuous :
 Proof.
   split; [|repeat split; reflexivity].
   split; [eexists; reflexivity|]. split; [right; cbn; discriminate|].
-  repeat constructor; cbn; lia.
+  apply lower_fixed_iff. vm_compute. reflexivity.
 Qed.
+
+(* "upper-case letter": a code point that Go's unicode.ToLower changes (table read off the toolchain); on
+   ASCII text that is a byte in 'A'..'Z'; text that is not valid UTF-8 is refused *)
+Theorem C15_no_upper_on_ascii : forall s, Forall (fun c => c < 128) s ->
+  (no_upper s <-> Forall (fun c => ~ (65 <= c <= 90)) s).
+Proof. exact no_upper_ascii. Qed.
+Print Assumptions C15_no_upper_on_ascii.
+
+Example C15_unicode_case :
+  (* /é accepted; /É, /ǅ (title case), /Ⅳ, an invalid byte, a truncated sequence: refused *)
+  is_ok (parse [47; 195; 169]) = true /\ is_ok (parse [47; 195; 137]) = false /\ is_ok (parse [47; 199; 133]) = false /\
+  is_ok (parse [47; 226; 133; 163]) = false /\ is_ok (parse [47; 255]) = false /\ is_ok (parse [47; 195]) = false.
+Proof. vm_compute. repeat split. Qed.
